@@ -74,6 +74,9 @@ class Gen:
     def count(self, pool, prefix):
         return sum(1 for n in pool.objs if n.startswith(prefix) and not n.startswith("W_"))
 
+    def _ckind(self):
+        return self.rng.choice(["list", "list", "tuple", "gen", "iter"])
+
     # ---- one op -------------------------------------------------------------
     def initial(self, pool, nv=3):
         ops = []
@@ -122,14 +125,14 @@ class Gen:
             return None
         k = self.rng.randint(1, 4)
         verts = [self._pick(vs) for _ in range(k)]
-        return ["mkl", self.fresh("M"), verts]
+        return ["mkl", self.fresh("M"), verts, self._ckind()]
 
     def g_mkv(self, pool):
         if self.count(pool, "V") >= LIMITS["V"]:
             return None
         ls = self.links(pool)
         links = [self._pick(ls) for _ in range(self.rng.randint(0, 2))] if ls else []
-        return ["mkv", self.fresh("V"), self.rng.choice(VCLS), links, []]
+        return ["mkv", self.fresh("V"), self.rng.choice(VCLS), links, [], self._ckind()]
 
     def _setv(self, pool, which):
         es = self.edges(pool)
@@ -215,14 +218,14 @@ class Gen:
             return None
         us = self.universes(pool)
         unis = [self._pick(us) for _ in range(self.rng.randint(0, 3))] if us else []
-        return ["mkv", self.fresh("V"), self.rng.choice(VCLS), [], unis]
+        return ["mkv", self.fresh("V"), self.rng.choice(VCLS), [], unis, self._ckind()]
 
     def g_mku(self, pool):
         if self.count(pool, "U") >= LIMITS["U"]:
             return None
         vs = self.vertices(pool)
         verts = [self._pick(vs) for _ in range(self.rng.randint(0, 4))] if vs else []
-        return ["mku", self.fresh("U"), verts, None]
+        return ["mku", self.fresh("U"), verts, None, self._ckind()]
 
     def _uv(self, pool, member_bias, want_member):
         u = self._pick(self.universes(pool))
@@ -350,7 +353,8 @@ def alias_class(pool, op) -> str:
                 t.append("links_dup" if len(set(ls)) < len(ls) else "links")
             if us:
                 t.append("unis_dup" if len(set(us)) < len(us) else "unis")
-            return "+".join(t) or "bare"
+            ck = op[5] if len(op) > 5 else "list"
+            return ("+".join(t) or "bare") + ("" if ck == "list" or not (ls or us) else ":" + ck)
         if k in ("link", "unlink"):
             a, b = (op[2], op[4]) if k == "link" else (op[1], op[2])
             va, vb = pool.get(a), pool.get(b)
